@@ -216,6 +216,38 @@ RAISES = (
      ['exc', 'ValueError'], ['exc', 'KeyError'], ['exc', 'ZeroDivisionError'], ['custom', 'boom'], ['custom_child', 'x']])
 
 
+STATIC_TARGETS = ['/static/a.txt', '/static/b.json', '/static/sub/c.bin', '/static/missing', '/static/', '/static', '/static/index.html',
+                  '/static/empty.txt', '/static/%2E%2E/a.txt', '/static/sub/', '/staticx', '/sink/static/a.txt', '/sink/static/missing',
+                  '/sink/static', '/sink/static/', '/sink/staticx', '/sink/static/sub/c.bin', '/dl/a.txt', '/dl/missing', '/dl/sub/c.bin',
+                  '/dl/', '/static/a.txt/', '/static/A.TXT']
+
+
+def multipart_body(parts, boundary='BOUND'):
+    """[(header lines, data)] -> multipart/form-data body (latin-1 str)."""
+    out = []
+    for headers, data in parts:
+        out.append('--' + boundary + '\r\n' + ''.join(h + '\r\n' for h in headers) + '\r\n' + data + '\r\n')
+    out.append('--' + boundary + '--\r\n')
+    return ''.join(out)
+
+
+def multipart_limit_bodies():
+    """Sizes around the documented MultipartParseOptions defaults: max_body_part_buffer_size 1 MiB,
+    max_body_part_count 64, max_body_part_headers_size 8192 - one below, exactly at, one above."""
+    mib = 1024 * 1024
+    for n in (mib - 1, mib, mib + 1):
+        yield 'file-%d' % n, multipart_body([(['Content-Disposition: form-data; name="f"; filename="big.bin"',
+                                               'Content-Type: application/octet-stream'], 'x' * n)])
+        yield 'text-%d' % n, multipart_body([(['Content-Disposition: form-data; name="t"'], 'y' * n),
+                                             (['Content-Disposition: form-data; name="after"'], 'z')])
+    for n in (63, 64, 65):
+        yield 'count-%d' % n, multipart_body([(['Content-Disposition: form-data; name="p%d"' % i], str(i)) for i in range(n)])
+    base = len('Content-Disposition: form-data; name="h"; filename=""\r\n')
+    for total in range(8180, 8200):
+        pad = total - base
+        yield 'headers-%d' % total, multipart_body([(['Content-Disposition: form-data; name="h"; filename="%s"' % ('n' * pad)], 'd')])
+
+
 OPS = [['set_status', 202], ['set_status', '299 Custom'], ['set_status', ['HTTPStatus', 404]], ['set_header', 'X-Pre', 'p'],
        ['set_media', {'pre': [1]}], ['set_text', 'pre'], ['set_data', 'pre'], ['render_body'], ['mutate_media'],
        ['set_content_type', 'text/x-pre']]
@@ -280,6 +312,15 @@ def families(tier, ua):
     for m in METHODS:
         for p in ('/', '/items', '/nope', '/sink/x'):
             yield 'E1.method', mk(ua, method=m, target=p)
+    # E1b static routes (one under the sink's prefix, one apart, one downloadable with a fallback file) - apps are built
+    #     with the constructors' default arguments
+    for t in STATIC_TARGETS:
+        for m in ('GET', 'HEAD', 'POST', 'OPTIONS'):
+            for hs in ([], [['Range', 'bytes=0-3']], [['Range', 'bytes=-5']], [['Range', 'bytes=100000-']], [['If-None-Match', '*']],
+                       [['If-Modified-Since', 'Wed, 21 Oct 2015 07:28:00 GMT']]):
+                if hs and (m != 'GET' and not thorough):
+                    continue
+                yield 'E1.static', mk(ua, method=m, target=t, headers=hs)
     # E2 queries x keep_blank x csv
     for q in QUERIES:
         for keep in (False, True):
@@ -366,6 +407,11 @@ def families(tier, ua):
                 for chunks in ((None, [1], [5, 0, 7]) if thorough else ((None,) if n_e4 % 2 else ([3, 0, 4],))):
                     yield 'E4.body', mk(ua, method='POST', target='/items', headers=[['Content-Type', ct]], body=body,
                                         chunks=chunks if body else None, script_=script(read=rm))
+    for label, body in multipart_limit_bodies():
+        for chunks in ((None, [4096]) if label.startswith(('file', 'text')) else (None,)):
+            yield 'E4.multipart-limits', mk(ua, method='POST', target='/items', body=body, chunks=chunks,
+                                            headers=[['Content-Type', 'multipart/form-data; boundary=BOUND']],
+                                            script_=script(read={'mode': 'multipart'}))
     for rm in READ_MODES:
         for m in ('GET', 'POST', 'PUT', 'DELETE'):
             yield 'E4.nobody', mk(ua, method=m, target='/items', script_=script(read=rm))
@@ -716,6 +762,22 @@ def histories(tier):
             yield {'defaults': {'Authorization': 'Bearer t0', 'X-Trace': 'd'}, 'defaults_form': dform,
                    'steps': [_step({'X-Req': '1', 'X-Trace': 'override'}, headers_form=form), _step('absent'),
                              _step({'Accept': 'text/html'}, headers_form=form)]}
+    # every client entry point with the argument styles of the one-shot simulator (their defaults must agree) ...
+    styled = [_step('absent', query='id=1&id=2&id=3', sim={'params_dict': True}),
+              _step('absent', query='id=1,2,3', sim={'params_dict': True}),
+              _step('absent', query='id=1&id=2', sim={'params_dict': True, 'params_csv_explicit': True}),
+              _step('absent', query='a=1&b=?x', sim={'inline_query': True}),
+              _step('absent', method='POST', body='{"a": 1}', ctype='application/json', sim={'json_param': True}),
+              _step('absent', method='POST', body='hello', ctype='text/plain', sim={'content_type_param': True}),
+              _step({'X-Req': '1'}, method='POST', body='{"a": 1}', ctype='application/json', sim={'json_param': True}),
+              _step('absent', method='POST', body='a=1', ctype='application/x-www-form-urlencoded'),
+              _step('absent', method='PUT', body='caf\xc3\xa9', ctype='text/plain', sim={'body_str': True, 'port_str': True})]
+    plain = [_step('absent'), _step('absent', method='POST'), _step(None), _step({'X-Later': 'l'})]
+    for d in (None, {'X-Trace': 'd'}, {'Accept': 'application/xml', 'X-Tenant': 't'}):
+        for st in styled:
+            # ... and nothing of a request may survive into the next ones through the same client
+            for after in plain:
+                yield {'defaults': d, 'steps': [st, after, st]}
     for mwm in ('independent', 'dependent'):
         yield {'defaults': {'X-Trace': 'd'}, 'mw': mwm, 'opts': [True, False, True],
                'steps': [_step({'X-Req': '1'}, method='POST', target='/items/7', query='a=1,2', body='{"a": 1}',
